@@ -24,6 +24,8 @@ def khash(key):
 
 def expand_paths(system, paths, check_replay=True):
   """Worker side: expands every path; returns a list of per-path results."""
+  if getattr(system, 'cfg', None) and system.cfg.get('fresh_backends') and hasattr(system, 'hard_reset'):
+    return _expand_paths_fresh(system, paths)
   out = []
   for path, want_key in paths:
     system.reset()
@@ -50,6 +52,30 @@ def expand_paths(system, paths, check_replay=True):
   return out
 
 
+def _expand_paths_fresh(system, paths):
+  """Replay-only expansion: every transition is reached by replaying its whole path on brand-new server and datastore
+  objects (no snapshot / restore under a live server object). Slower, and free of any assumption about what a server keeps
+  in memory."""
+  out = []
+  for path, _ in paths:
+    system.hard_reset()
+    for a in path:
+      system.apply(a)
+    h0 = khash(system.key())
+    res = {'path': path, 'key': h0, 'succ': [], 'pruned': 0, 'replay_mismatch': False, 'responses': {}}
+    system.pruned = 0
+    acts = system.actions()
+    res['pruned'] = system.pruned
+    for a in acts:
+      system.hard_reset()
+      for b in path:
+        system.apply(b)
+      vios = system.apply(a)
+      res['succ'].append((a, khash(system.key()), vios, system.last_outcome()))
+    out.append(res)
+  return out
+
+
 class Search:
   """Parent side of the level-synchronous BFS."""
 
@@ -69,6 +95,21 @@ class Search:
     self.level_sizes = []
 
   def run(self, init_key_hash=None):
+    fp = self._run()
+    if self.replay_mismatches and not self.cfg.get('fresh_backends'):
+      # the state reached by replay differs from the one reached via snapshot / restore: the server objects keep something in
+      # memory that the swapped datastore contents do not account for. Start again without that short cut.
+      self.fallback = 'snapshot/replay mismatch: search restarted in replay-only mode on fresh server objects'
+      old = self.cfg
+      self.cfg = dict(self.cfg, fresh_backends=True)
+      self.seen, self.states, self.transitions, self.pruned, self.depth_done, self.capped = {}, 0, 0, 0, -1, None
+      self.outcomes, self.samples, self.replay_mismatches, self.level_sizes = {}, [], 0, []
+      # what the first pass reported may be an artefact of the short cut: only the second pass counts
+      self.ctx.violations[:] = [v for v in self.ctx.violations if not (isinstance(v.get('case'), dict) and v['case'].get('cfg') == old)]
+      fp = self._run()
+    return fp
+
+  def _run(self):
     frontier = [(p, None) for p in self.starts]
     self.states = len(frontier)
     depth = 0
@@ -136,6 +177,7 @@ class Search:
         'cap_hit': self.capped,
         'exhaustive': self.capped is None,
         'snapshot_vs_replay_mismatches': self.replay_mismatches,
+        'mode': getattr(self, 'fallback', None) or ('replay-only on fresh server objects' if self.cfg.get('fresh_backends') else 'snapshot/restore inside an expansion, replay between levels'),
         'distinct_outcomes_per_rpc': {('%s:%s' % k): v for k, v in sorted(self.outcomes.items())},
         'samples': self.samples[:6],
     }
